@@ -657,6 +657,11 @@ fn ef_instances() -> Vec<(&'static str, usize, usize)> {
         ("n64-uMAX", 64, usize::MAX),
         ("n1000-u-eq-n", 1000, 1000),
         ("n300-u-small", 300, 17),
+        // upper-bits arrays of exactly 64, 128 and 256 bits (n + (u >> l) + 1): the word after
+        // the terminating zero does not exist, and u + 1 opens the bucket after the last one
+        ("n31-u32-hi64", 31, 32),
+        ("n63-u64-hi128", 63, 64),
+        ("n100-u1247-hi256", 100, 1247),
     ]
 }
 
